@@ -149,6 +149,21 @@ def frame_check(ctx, spec, k, T, K, tl=(), where="generated", cond_max=1e8, inpl
             else:
                 ctx.check("trajectory-commutes-with-frame-change", ra.num_iterations == rt.num_iterations and bool(ra.converged) == bool(rt.converged),
                           dict(feats, variant="default tol / max_iter: same stopping point"), {"num_iterations": [ra.num_iterations, rt.num_iterations], "converged": [ra.converged, rt.converged], "T": T}, case)
+                # ... and, when both stopped at the same point, with poses that are each other's transform (two runs to convergence agree to the
+                # convergence accuracy of the rule, 1e-4 relative in chi2, not to rounding: loose tolerance, tight enough for a lost or doubled frame change)
+                wd = 0.0
+                for v, vt in zip(ga._vertices, gta._vertices):
+                    kk = M.kind(v.pose)
+                    p = M.fl(v.pose)
+                    exp = R.vals(R.oplus(k, T, p)) if (kk == k and k not in ("r2", "r3")) else R.vals(R.act(k, T, p))
+                    got = M.fl(vt.pose)
+                    if not all(math.isfinite(x) for x in got + exp):
+                        wd = math.inf
+                        continue
+                    dt, dr = M.pose_distance(kk, exp, got)
+                    wd = max(wd, dt / (1.0 + tmagT + scene), dr)
+                if ra.num_iterations == rt.num_iterations:
+                    ctx.check("trajectory-commutes-with-frame-change", wd <= 1e-3, dict(feats, variant="default tol / max_iter: final poses"), {"worst_relative": wd, "T": T}, case)
                 ctx.count("class:default_arguments_run")
         except Exception as ex:
             ctx.check("trajectory-commutes-with-frame-change", False, dict(feats, exception=type(ex).__name__, variant="default tol / max_iter"), {"message": str(ex)[:300]}, case)
@@ -174,7 +189,7 @@ def run_case(ctx, i, rng):
                                 lm_init=(4e3 if large else None), meas_t=0.03, meas_r=0.01,
                                 init_t=float(rng.uniform(0.01, 0.15)), init_r=float(rng.uniform(0.005, 0.08)), cond=float(10 ** rng.uniform(0, 3)), cross=True,
                                 straight_init=straight, step=(0.3 if straight else 1.0))
-    maxexp = 4.0 if ctx.tier == "quick" else 6.0
+    maxexp = 4.0 if (ctx.tier == "quick" and (i // 4) % 3 != 1) else 6.0  # the default-argument cases also use the widest frames in the quick tier
     T, tl = gen.pose(rng, k, maxexp)
     T = gen.normalize_pose(k, T)
     if k == "se2":
